@@ -29,6 +29,7 @@ type webOpts struct {
 	EnableUserToken  bool     `json:"enable_user_token,omitempty"`
 	UserSigningKey   bool     `json:"user_token_signing_key,omitempty"`
 	VerifyIP         bool     `json:"verify_client_ip"`
+	VerifyDefault    bool     `json:"verify_client_ip_left_to_default,omitempty"`
 	Instance         int      `json:"instance,omitempty"` // distinguishes otherwise equal instances
 	RandomKeys       bool     `json:"random_session_keys,omitempty"`
 }
@@ -46,7 +47,10 @@ func webConfig(o webOpts) gwproc.Config {
 	}
 	c.Set("OpenId", "ProviderUrl", w.IdP.URL).Set("OpenId", "ClientId", w.IdP.ClientID).Set("OpenId", "ClientSecret", w.IdP.ClientSecret)
 	c.Set("Caps", "TokenAuth", true)
-	c.Set("Security", "PAATokenSigningKey", testSigningKey).Set("Security", "VerifyClientIp", o.VerifyIP).
+	if !o.VerifyDefault {
+		c.Set("Security", "VerifyClientIp", o.VerifyIP)
+	}
+	c.Set("Security", "PAATokenSigningKey", testSigningKey).
 		Set("Security", "QueryTokenSigningKey", testQueryKey).Set("Security", "QueryTokenIssuer", "portal").
 		Set("Security", "EnableUserToken", o.EnableUserToken).Set("Security", "UserTokenEncryptionKey", c15EncKey)
 	if o.UserSigningKey {
